@@ -67,6 +67,14 @@ fn main() {
         }
         return;
     }
+    if inp.contains("\"multi_record_check\"") {
+        let (n, r) = standins::check_multi_record();
+        match r {
+            Some(d) => println!("{{\"outcome\": \"violation\", \"detail\": \"{}\", \"tried\": {}}}", esc(&d), n),
+            None => println!("{{\"outcome\": \"ok\", \"detail\": \"multi-record parsers equal the explicit loop on {} buffers\", \"tried\": {}}}", n, n),
+        }
+        return;
+    }
     if inp.contains("\"cipher_names_check\"") {
         let (n, r) = standins::check_cipher_names();
         match r {
